@@ -154,6 +154,7 @@ def check(rep, an, tier):
                               construct="cartesian_to_barycentric(X, L1=l1)", entry=ent, config=res.config)
                 if Fax == "#2":
                     CC.dim1(rep, res, ent)
+                CC.corner_map(rep, res, ent)
                 R.rule_effect_free(rep, res, ent)
                 R.rule_purity(rep, res, ent)
     rep.advisory("l1 sampling draws in the L1-normalised image of ALL gamut vertices (the cone's cross-section) and rescales to l1; that set "
